@@ -22,6 +22,28 @@ type c05Case struct {
 	Valid bool   `json:"check_valid"`
 	Hist  string `json:"option_history,omitempty"`
 	Pol   int    `json:"order_policy"`
+	Bytes bool   `json:"values_as_byte_slices,omitempty"` // the Map holds its string values as []byte (documented as supported by the Map encoders)
+}
+
+// c05Bytes: the current case holds its values as []byte.
+var c05Bytes bool
+
+func bytesify(v interface{}) interface{} {
+	switch t := v.(type) {
+	case map[string]interface{}:
+		for k, e := range t {
+			t[k] = bytesify(e)
+		}
+		return t
+	case []interface{}:
+		for i, e := range t {
+			t[i] = bytesify(e)
+		}
+		return t
+	case string:
+		return []byte(t)
+	}
+	return v
 }
 
 func init() {
@@ -29,7 +51,9 @@ func init() {
 		var k c05Case
 		json.Unmarshal(cas, &k)
 		rt.OrderPolicy = k.Pol
+		c05Bytes = k.Bytes
 		c05Check(c, k.S, k.Pos, k.Enc, k.Mode, k.Valid, k.Hist)
+		c05Bytes = false
 		rt.OrderPolicy = rt.PolicySorted
 		resetOptions()
 	}})
@@ -109,7 +133,7 @@ func c05Check(c *Ctx, s, pos, enc, mode string, valid bool, hist string) (nontri
 	doc := c05Doc(s, pos)
 	src := []byte(renderDoc(doc, rvDefault)) // correctly escaped document holding s
 	cas := func() interface{} {
-		return c05Case{S: s, Pos: pos, Enc: enc, Mode: mode, Valid: valid, Hist: hist, Pol: rt.OrderPolicy}
+		return c05Case{S: s, Pos: pos, Enc: enc, Mode: mode, Valid: valid, Hist: hist, Pol: rt.OrderPolicy, Bytes: c05Bytes}
 	}
 	shape := pos
 	isSeq := strings.HasPrefix(enc, "MapSeq")
@@ -155,6 +179,9 @@ func c05Check(c *Ctx, s, pos, enc, mode string, valid bool, hist string) (nontri
 		} else {
 			m, err = mxj.NewMapXml(src)
 			m = toList(m)
+			if c05Bytes && err == nil {
+				m = mxj.Map(bytesify(map[string]interface{}(m)).(map[string]interface{}))
+			}
 		}
 		if err != nil {
 			return
@@ -213,13 +240,13 @@ func c05Check(c *Ctx, s, pos, enc, mode string, valid bool, hist string) (nontri
 
 func c05Run(c *Ctx) {
 	mustBeDefault(c)
-	c.S.Rule = "cases = (string, position, encoder, escaping mode, validity check, option history): strings are all words of <= K tokens over {a, 1, space, tab, newline, &, <, >, \", ', e-acute, &amp;, &#x41;, ]]>, <![CDATA[, </r>, /, a run of multi-byte characters whose code points end in the byte of an XML special character (U+2026 U+2022 U+0126 U+203C U+203E U+2027 U+4E26)}; positions element text, attribute value, text beside an attribute, text before a child element, the same three directly in the root element, and a member of a top-level list (default-root wrapping); encoders Map.Xml, Map.XmlIndent, MapSeq.Xml, MapSeq.XmlIndent; modes encoder-side escaping, decoder-side escaping (reached by the five documented call histories of the two switches), escaping off with validity check on/off. Oracle: with escaping the output is well formed and a plain decode gives exactly the values a plain decode of the correctly-escaped source gives; with escaping off and validity on: error or well-formed output; always no panic. non-trivial = the string contains an XML special character."
+	c.S.Rule = "cases = (string, position, encoder, escaping mode, validity check, option history): strings are all words of <= K tokens over {a, 1, space, tab, newline, &, <, >, \", ', e-acute, &amp;, &#x41;, ]]>, <![CDATA[, </r>, /, a run of multi-byte characters whose code points end in the byte of an XML special character (U+2026 U+2022 U+0126 U+203C U+203E U+2027 U+4E26), U+FFFD}; for the Map encoders also with the values held as []byte (words of <= 2 tokens); positions element text, attribute value, text beside an attribute, text before a child element, the same three directly in the root element, and a member of a top-level list (default-root wrapping); encoders Map.Xml, Map.XmlIndent, MapSeq.Xml, MapSeq.XmlIndent; modes encoder-side escaping, decoder-side escaping (reached by the five documented call histories of the two switches), escaping off with validity check on/off. Oracle: with escaping the output is well formed and a plain decode gives exactly the values a plain decode of the correctly-escaped source gives; with escaping off and validity on: error or well-formed output; always no panic. non-trivial = the string contains an XML special character."
 	c.S.Assumptions = []string{"the Map/MapSeq under test is obtained by decoding a correctly escaped document that holds the string (decoders validated by C01/C04)"}
 	k := 3
 	if c.Thorough {
 		k = 4
 	}
-	alpha := []string{"a", "1", " ", "\t", "\n", "&", "<", ">", "\"", "'", "é", "&amp;", "&#x41;", "]]>", "<![CDATA[", "</r>", "/", "\u2026\u2022\u0126\u203c\u203e\u2027\u4e26"}
+	alpha := []string{"a", "1", " ", "\t", "\n", "&", "<", ">", "\"", "'", "é", "&amp;", "&#x41;", "]]>", "<![CDATA[", "</r>", "/", "\u2026\u2022\u0126\u203c\u203e\u2027\u4e26", "\ufffd"}
 	var words []string
 	seqs(alpha, k, func(s []string) { words = append(words, strings.Join(s, "")) })
 	if c.Shard == 0 {
@@ -252,6 +279,13 @@ func c05Run(c *Ctx) {
 					if c05Check(c, w, pos, enc, md.mode, md.valid, md.hist) {
 						c.S.Nontrivial++
 						c.Sample(map[string]interface{}{"string": w, "position": pos, "encoder": enc, "mode": md})
+					}
+					// the same Map with its values held as []byte (Map encoders, default histories, words of <= 2 tokens)
+					if strings.HasPrefix(enc, "Map.") && md.hist == "" && wi < len(alpha)*(len(alpha)+1) {
+						c05Bytes = true
+						c05Check(c, w, pos, enc, md.mode, md.valid, md.hist)
+						c05Bytes = false
+						c.S.Schedules++
 					}
 				}
 			}
